@@ -3,6 +3,7 @@ package main
 import (
 	"fmt"
 	"math/rand"
+	"path/filepath"
 	"strings"
 )
 
@@ -33,9 +34,10 @@ func c12Stream(rng *rand.Rand, flavour int) *Stream {
 			default:
 				s.Def(2, arch, 0xFF02, []FieldDef{{0, 1, 2}, {1, 1, 2}}, nil) // unknown message
 			}
-			s.Def(3, arch, 21, []FieldDef{{253, 4, 0x86}, {0, 1, 0}}, nil) // event with explicit timestamp
-			s.Def(4, arch, 0xFF01, []FieldDef{{253, 4, 0x86}}, nil)        // unknown message with a timestamp field
-			s.Def(5, arch, 49, []FieldDef{{0, 2, 0x84}}, nil)              // file_creator: no timestamp field
+			s.Def(3, arch, 21, []FieldDef{{253, 4, 0x86}, {0, 1, 0}}, nil)  // event with explicit timestamp
+			s.Def(4, arch, 0xFF01, []FieldDef{{253, 4, 0x86}}, nil)         // unknown message with a timestamp field
+			s.Def(5, arch, 49, []FieldDef{{0, 2, 0x84}}, nil)               // file_creator: no timestamp field
+			s.Def(6, arch, 132, []FieldDef{{253, 4, 0x86}, {1, 1, 2}}, nil) // hr: timestamp, time256
 		}
 		defineAll()
 		n := 20 + rng.Intn(60)
@@ -66,6 +68,13 @@ func c12Stream(rng *rand.Rand, flavour int) *Stream {
 				s.Compressed(1, off, []byte{byte(rng.Intn(200))}) // same offset again
 			case x == 5:
 				s.Data(5, wire(u16le(uint16(rng.Intn(1000))), arch))
+			case x == 6:
+				// messages other than record with valid and (one in three) invalid timestamps: invalid stays invalid
+				v := now
+				if rng.Intn(3) == 0 {
+					v = 0xFFFFFFFF
+				}
+				s.Data(6, append(ts(v), byte(rng.Intn(250))))
 			default:
 				switch rng.Intn(4) {
 				case 0:
@@ -84,6 +93,26 @@ func c12Stream(rng *rand.Rand, flavour int) *Stream {
 					s.Compressed(2, off, []byte{byte(rng.Intn(40)), byte(rng.Intn(5))})
 				}
 			}
+		}
+	case 2: // goals file: two UTC times per message, valid, invalid (open-ended goal) or not sent at all
+		s.FileId(0, arch, 11)
+		s.Def(0, arch, 15, []FieldDef{{2, 4, 0x86}, {3, 4, 0x86}, {4, 1, 0}}, nil) // goal: start_date, end_date, type
+		s.Def(1, arch, 15, []FieldDef{{2, 4, 0x86}, {4, 1, 0}}, nil)               // goal without end_date
+		s.Def(2, arch, 15, []FieldDef{{3, 4, 0x86}, {4, 1, 0}}, nil)               // goal without start_date
+		for i := 0; i < 8+rng.Intn(8); i++ {
+			now += uint32(rng.Intn(100000))
+			end := now + uint32(rng.Intn(1000000))
+			switch rng.Intn(5) {
+			case 0:
+				end = 0xFFFFFFFF
+			case 1:
+				s.Data(1, append(ts(now), byte(rng.Intn(6))))
+				continue
+			case 2:
+				s.Data(2, append(ts(end), byte(rng.Intn(6))))
+				continue
+			}
+			s.Data(0, append(append(ts(now), ts(end)...), byte(rng.Intn(6))))
 		}
 	default: // schedules file: local timestamps in a list slot, references from record messages
 		s.FileId(0, arch, 7)
@@ -177,14 +206,33 @@ func runC12(c *Ctx) {
 	}
 	c.Cov["apalache_obligations"] = len(obl)
 	c.Cov["apalache_discharged"] = discharged
+	// which fields are date_time and which local_date_time is taken from the SDK
+	// workbook, not from the table under test (the Contract reads the kind from the table)
+	if sdk, err := readWorkbook(filepath.Join(repoDir, "cmd/fitgen/internal/profile/testdata/21.40.xlsx")); err == nil {
+		nk := 0
+		for _, row := range sdk {
+			if row.K == 0 {
+				continue
+			}
+			if pf := p.field(row.M, row.N); pf != nil {
+				nk++
+				if pf.K != row.K {
+					c.report(fmt.Sprintf("time-kind:m%d.f%d", row.M, row.N), fmt.Sprintf("message %d field %d (%s) is %s in the SDK profile but the library decodes it as %s", row.M, row.N, row.Name,
+						[]string{"", "date_time", "local_date_time"}[row.K], map[int]string{0: "a plain number", 1: "date_time", 2: "local_date_time", 3: "a latitude", 4: "a longitude"}[pf.K]), nil)
+				}
+			}
+		}
+		c.Cov["time_fields_checked_against_sdk_workbook"] = nk
+	}
 	rng := newRng(c.Seed)
 	var calls []*Call
 	id := 0
 	n := c.pick(300, 4000)
 	for i := 0; i < n; i++ {
 		id++
-		cl := p.runCall(id, "decode", c12Stream(rng, i%2).Bytes(), plain, CallOpts{}, true)
-		cl.Note = []string{"activity/compressed", "schedules/local"}[i%2]
+		fl := []int{0, 1, 0, 1, 2}[i%5]
+		cl := p.runCall(id, "decode", c12Stream(rng, fl).Bytes(), plain, CallOpts{}, true)
+		cl.Note = []string{"activity/compressed", "schedules/local", "goals/utc pairs"}[fl]
 		calls = append(calls, cl)
 	}
 	// chains: the reference does not survive into the next file (its first
